@@ -12,7 +12,7 @@ import (
 func init() {
 	register(&propDef{
 		ID:          "C19",
-		Explanation: "Structural rules for Kafka publication, decided on SSA/AST: (1) PublishIPFIXMessages ranges over the channel and, per message, ranges in order over the convertor's slice, calling SendFlowMessage(element, true) synchronously for the loop's own element; (2) every convertor returns nil when the set type is Template (test dominating everything else) and otherwise allocates len(records) outputs and fills out[i] from records[i] for the range index i of set.GetRecords(); the four header fields are copied from GetExportTime/GetSequenceNum/GetObsDomainID/GetExportAddress of the same message; (3) SendFlowMessage: exactly one send on producer.Input() on the marshal-ok path, Topic = configured topic, Value = ByteEncoder(append(prefix, bytes...)) where bytes is the marshal result and prefix is a FRESH 4-byte slice holding BigEndian uint32(len(bytes)) (so a payload handed to the asynchronous producer is never overwritten by the next record); 4 == consumer msgDelimitLen and the consumer decodes value[msgDelimitLen:] with proto.Unmarshal (which resets the destination message); R-ERR: every path through SendFlowMessage must reach the send - the marshal-error edge does not (known finding); (4) R-GETTER: every case \"name\" of both convertors uses an accessor declared by the element type that name has in the registries (incl. derived reverse names). Not decided: protobuf wire content, sarama delivery. Later additions: constant indexing of slices on the publishing path needs a length test; sarama configuration fields outside the audited set are undecided.",
+		Explanation: "Structural rules for Kafka publication, decided on SSA/AST: (1) PublishIPFIXMessages ranges over the channel and, per message, ranges in order over the convertor's slice, calling SendFlowMessage(element, true) synchronously for the loop's own element; (2) every convertor returns nil when the set type is Template (test dominating everything else) and otherwise allocates len(records) outputs and fills out[i] from records[i] for the range index i of set.GetRecords(); the four header fields are copied from GetExportTime/GetSequenceNum/GetObsDomainID/GetExportAddress of the same message; (3) SendFlowMessage: exactly one send on producer.Input() on the marshal-ok path, Topic = configured topic, Value = ByteEncoder(append(prefix, bytes...)) where bytes is the marshal result and prefix is a FRESH 4-byte slice holding BigEndian uint32(len(bytes)) (so a payload handed to the asynchronous producer is never overwritten by the next record); 4 == consumer msgDelimitLen and the consumer decodes value[msgDelimitLen:] with proto.Unmarshal (which resets the destination message); R-ERR: every path through SendFlowMessage must reach the send - the marshal-error edge does not (known finding); (4) R-GETTER: every case \"name\" of both convertors uses an accessor declared by the element type that name has in the registries (incl. derived reverse names). Not decided: protobuf wire content, sarama delivery. Later additions: constant indexing of slices on the publishing path needs a length test; sarama configuration fields outside the audited set are undecided. Round-five additions: the sarama Return.Successes / Return.Errors flags are assigned unconditionally from the configuration; the consumer refuses only frames shorter than the length prefix.",
 		Assume:      []string{"proto.Marshal/Unmarshal and sarama.AsyncProducer semantics"},
 		Run:         runC19,
 	})
